@@ -215,6 +215,18 @@ theorem unlock_url_injective (a b : UrlEsc.Bytes) (h : UrlEsc.unlockSuffix a = U
 /-- `a?b#/ ` ↦ `a%3Fb%23%2F%20` -/
 example : UrlEsc.pathEscape [97, 63, 98, 35, 47, 32] = [97, 37, 51, 70, 98, 37, 50, 51, 37, 50, 70, 37, 50, 48] := by decide
 
+/-- the id segment of the unlock URL is empty only for an empty id — which the client refuses to address (D81) -/
+theorem unlock_id_segment_nonempty (id : UrlEsc.Bytes) (h : id ≠ []) : UrlEsc.pathEscape id ≠ [] := by
+  cases id with
+  | nil => exact absurd rfl h
+  | cons b rest =>
+    unfold UrlEsc.pathEscape
+    simp only [List.flatMap_cons]
+    intro hnil
+    have : UrlEsc.escByte b = [] := (List.append_eq_nil_iff.mp hnil).1
+    unfold UrlEsc.escByte at this
+    split at this <;> simp at this
+
 /-! tie to lfsapi/auth.go as it is in /repo now -/
 /-- after an auth error doWithAuth deletes the request's Authorization header in ONE place, and only when git-lfs
     itself had filled it from the credential helper (`credWrapper.Creds != nil`): a header the offered action
